@@ -941,7 +941,7 @@ func (r *vfhRun) finish() map[string]any {
 	var recs []map[string]any
 	for _, s := range r.sess {
 		rec := map[string]any{"i": s.i, "role": s.cfg.Role, "owner": s.cfg.Owner, "target": s.cfg.Target,
-			"ret": "-", "key": "-", "oe": "-", "pe": "-", "s3": false, "s4": false, "in": []string{}, "errc": "-", "nf": 0}
+			"ret": "-", "key": "-", "oe": "-", "oeh": "-", "pe": "-", "s3": false, "s4": false, "in": []string{}, "errc": "-", "nf": 0}
 		if s.conn != nil {
 			if !s.closed {
 				s.conn.closeIn()
@@ -966,7 +966,10 @@ func (r *vfhRun) finish() map[string]any {
 				}
 			}
 			rec["key"] = key
-			rec["oe"] = r.nameOfEph(s.ownEph)
+			if s.ownEph != nil {
+				rec["oe"] = "e" + strconv.Itoa(s.i)
+				rec["oeh"] = vfhCanon(s.ownEph)
+			}
 			rec["pe"] = r.nameOfEph(s.peerEph)
 			rec["s3"] = s.cfg.Role == "req" && len(s.frames) >= 2
 			rec["s4"] = s.cfg.Role == "rsp" && len(s.frames) >= 2
